@@ -77,6 +77,7 @@ SecAction "id:119,phase:2,pass,nolog,setvar:tx.end2=1"
 SecRule ARGS_GET:d3 "@streq 1" "id:120,phase:3,deny,status:403,log"
 SecRule RESPONSE_HEADERS:X-R "@streq 1" "id:121,phase:3,pass,nolog,setvar:tx.rh=1"
 SecRule ARGS_GET:al3 "@streq 1" "id:122,phase:3,allow,nolog"
+SecRule ARGS_GET:c_rjson "@streq 1" "id:124,phase:3,pass,nolog,ctl:responseBodyProcessor=JSON"
 SecAction "id:129,phase:3,pass,nolog,setvar:tx.end3=1"
 SecRule RESPONSE_BODY "@contains leak" "id:130,phase:4,pass,log,setvar:tx.rb=1"
 SecRule ARGS_GET:d4 "@streq 1" "id:131,phase:4,deny,status:404,log"
@@ -85,7 +86,7 @@ SecAction "id:150,phase:5,pass,nolog,verifdump:p5"
 `
 
 var c05Steers = []string{"cap", "setx", "ce_do", "ce_on", "c_audoff", "c_parts", "c_rba", "c_rbl", "c_sba", "c_sbl", "c_json", "c_force", "c_rm", "c_rmr", "c_rmt", "c_rmtag", "c_fresp", "c_partsm", "c_partsh",
-	"d1", "sk1", "ska1", "al1", "alr1", "alp1", "t", "u", "ce_off2", "d2", "sk2", "ska2", "d3", "al3", "d4"}
+	"d1", "sk1", "ska1", "al1", "alr1", "alp1", "t", "u", "ce_off2", "d2", "sk2", "ska2", "d3", "al3", "c_rjson", "d4"}
 
 type c05Tx struct {
 	Steer []string `json:"steer"`
@@ -149,7 +150,7 @@ func c05GenTx(r gen.R, focus string, probe bool) c05Tx {
 	if gen.Chance(r, 0.2) {
 		t.BodyJSON, t.Body = true, gen.Pick(r, []string{`{"a":1,"b":"attack"}`, `{"a":`, `{"k":{"n":[1,2,"attack"]}}`})
 	}
-	t.RespBody = gen.Pick(r, []string{"", "ok", "a leak here", strings.Repeat("z", 350)})
+	t.RespBody = gen.Pick(r, []string{"", "ok", "a leak here", strings.Repeat("z", 350), `{"a":`, `{"leak":[1,2]}`})
 	t.RespHeader = gen.Chance(r, 0.5)
 	if !probe {
 		ne := r.IntN(22)
